@@ -7,6 +7,7 @@ from . import c06
 
 
 def check(rep, model, tier):
+    _doc_defaults(rep, model)
     rep.rule('BF-DEF', 'burst_fraction == mean of the sample-wise dual-threshold mask over [last side, next side] inclusive, side by centring; the mask '
                        'is detect_bursts_dual_threshold(sig, fs, amp_threshes, f_range, min_n_cycles (None iff a duration is given), min_burst_duration, **filter_kwargs)')
     rep.rule('BF-BIND', 'the call of the sample-wise detector binds against the installed neurodsp signature')
@@ -126,3 +127,8 @@ def bind_external(rep, model, ctx, short, dotted, rule, inst, site):
             rep.violation(rule, f'{short}:{inst}', e['where'] or site, expected=f'binds against {dotted}{tuple(ext.params)}', found='; '.join(problems))
         else:
             rep.ok(rule, f'{short}:{inst}', e['where'] or site, found=f'{len(bound)} parameters bound')
+
+
+def _doc_defaults(rep, model):
+    from . import common as _c
+    _c.doc_defaults(rep, model, ['detect_bursts_amp', 'compute_burst_fraction'])
